@@ -2,6 +2,8 @@ import Driver.Util
 import Driver.C16
 import Driver.Recv
 import Driver.Send
+import Driver.C09
+import Driver.C15
 open Lean Driver
 
 def dispatch (j : Json) : R Json := do
@@ -11,6 +13,8 @@ def dispatch (j : Json) : R Json := do
   | "c16" => Driver.C16.handle op j
   | "recv" => Driver.Recv.handle op j
   | "send" => Driver.Send.handle op j
+  | "c09" => Driver.C09.handle op j
+  | "c15" => Driver.C15.handle op j
   | "ping" => return obj [("pong", Json.bool true)]
   | _ => throw s!"unknown op prefix {pfx}"
 
